@@ -160,6 +160,89 @@ def gen_columnar(items):
                 f'the column minimum refused? -/\n'
                 f'def RANGE_BELOW_MIN_GUARD : Bool := {"true" if g else "false"}')
     items.append(range_guard)
+    def linear_dev_step():
+        # the running (min_deviation, max_deviation) update of LinearCodecEstimator, translated statement
+        # by statement: `self.F = self.F.min|max(deviation);`, `self.F = deviation;`,
+        # `if deviation <op> self.F { .. } [else if .. { .. }]* [else { .. }]`
+        lin = 'columnar/src/column_values/u64_based/linear.rs'
+        body = fn_body(lin, 'collect_after_line_estimation')
+        m = re.search(r'let\s+deviation\s*=\s*value\.wrapping_add\(HALF_SPACE\)\.wrapping_sub\(interpoled_val\)\s*;(.*?)if\s+self\.row_id\s*==\s*0', body, flags=re.S)
+        if not m:
+            raise Fail(f'{lin}: collect_after_line_estimation outside the modelled shape (deviation / row_id markers)')
+        toks = re.findall(r'self\.min_deviation|self\.max_deviation|deviation|else|if|min|max|<=|>=|[<>=;{}().]', m.group(1))
+        joined = re.sub(r'\s+', '', m.group(1))
+        if ''.join(toks) != joined:
+            raise Fail(f'{lin}: deviation update outside the closed subset: {m.group(1).strip()!r}')
+        pos = [0]
+        FIELD = {'self.min_deviation': 'mn', 'self.max_deviation': 'mx'}
+        def peek():
+            return toks[pos[0]] if pos[0] < len(toks) else None
+        def eat(x=None):
+            t = peek()
+            if t is None or (x is not None and t != x):
+                raise Fail(f'{lin}: deviation update: expected {x!r}, found {t!r}')
+            pos[0] += 1
+            return t
+        def cond():
+            eat('deviation'); op = eat()
+            if op not in ('<', '>', '<=', '>='):
+                raise Fail(f'{lin}: deviation update: comparison {op!r} outside the closed subset')
+            f = eat()
+            if f not in FIELD:
+                raise Fail(f'{lin}: deviation update: comparison against {f!r}')
+            return f'deviation {"≤" if op == "<=" else "≥" if op == ">=" else op} {FIELD[f]}'
+        def block():          # stmts until '}' or end; returns a Lean term of type Nat × Nat using mn, mx
+            if peek() in (None, '}'):
+                return '(mn, mx)'
+            if peek() == 'if':
+                eat('if'); c = cond(); eat('{'); a = block(); eat('}')
+                if peek() == 'else':
+                    eat('else')
+                    if peek() == 'if':
+                        b = block_if_chain()
+                    else:
+                        eat('{'); b = block(); eat('}')
+                else:
+                    b = '(mn, mx)'
+                rest = block()
+                return f'(let p : Nat × Nat := (if {c} then {a} else {b}); let mn := p.1; let mx := p.2; {rest})'
+            f = eat()
+            if f not in FIELD:
+                raise Fail(f'{lin}: deviation update: statement starting with {f!r}')
+            eat('=')
+            if peek() == 'deviation':
+                eat('deviation'); e = 'deviation'
+            else:
+                g = eat()
+                if g != f:
+                    raise Fail(f'{lin}: deviation update: {f} assigned from {g}')
+                eat('.'); fn = eat()
+                if fn not in ('min', 'max'):
+                    raise Fail(f'{lin}: deviation update: method {fn!r}')
+                eat('('); eat('deviation'); eat(')')
+                e = f'Nat.{fn} {FIELD[f]} deviation'
+            eat(';')
+            rest = block()
+            return f'(let {FIELD[f]} := {e}; {rest})'
+        def block_if_chain():   # `if c { .. } [else ..]` as the else-branch of an outer if (no trailing stmts)
+            eat('if'); c = cond(); eat('{'); a = block(); eat('}')
+            if peek() == 'else':
+                eat('else')
+                if peek() == 'if':
+                    b = block_if_chain()
+                else:
+                    eat('{'); b = block(); eat('}')
+            else:
+                b = '(mn, mx)'
+            return f'(if {c} then {a} else {b})'
+        term = block()
+        if peek() is not None:
+            raise Fail(f'{lin}: deviation update: trailing tokens')
+        return (f'/-- extracted from {lin}::LinearCodecEstimator::collect_after_line_estimation: one step of the '
+                f'running (min_deviation, max_deviation) -/\n'
+                f'def linearDevStep (s : Nat × Nat) (deviation : Nat) : Nat × Nat :=\n'
+                f'  let mn := s.1; let mx := s.2; {term}')
+    items.append(linear_dev_step)
     def serialized_meta():
         return D('SERIALIZED_BLOCK_META_NUM_BYTES', const(oi, 'SERIALIZED_BLOCK_META_NUM_BYTES'), oi)
     items.append(serialized_meta)
